@@ -404,10 +404,7 @@ class BradleyTerryPart:
                         f"The {rating.__class__.__name__} contains an "
                         f"element '{value}' of type '{value.__class__.__name__}'"
                     )
-            if not name:
-                return BradleyTerryPartRating(mu=rating[0], sigma=rating[1])
-            else:
-                return BradleyTerryPartRating(mu=rating[0], sigma=rating[1], name=name)
+            return BradleyTerryPartRating(mu=rating[0], sigma=rating[1], name=name)
         else:
             raise TypeError(f"Cannot accept '{rating.__class__.__name__}' type.")
 
